@@ -29,7 +29,24 @@ def safe(name):
     return re.sub(r"[^A-Za-z0-9_.-]+", "_", name)[:120]
 
 
-def finish(prop, tier, seed, contracts, results, extra, t0):
+_CACHE = {}
+
+
+def okey(o):
+    """obligation identity that survives path renumbering: function, kind, name without [..] suffix"""
+    name = re.sub(r"\[.*$", "", o["name"])
+    name = re.sub(r"\(line \d+\)", "", name)
+    return f"{o.get('function')}|{o['kind']}|{name}"
+
+
+def load_baseline(prop):
+    try:
+        return set(json.load(open(os.path.join(ROOT, "baseline", f"{prop}.json")))["discharged"])
+    except (OSError, ValueError, KeyError):
+        return set()
+
+
+def finish(prop, tier, seed, contracts, results, extra, t0, write_baseline=False):
     from pyvc import replay
     by_qual = {c.qual: c for c in contracts}
     obligations = []
@@ -57,6 +74,7 @@ def finish(prop, tier, seed, contracts, results, extra, t0):
             f["obligations"] += 1
     for o in extra:
         obligations.append(o)
+    baseline = load_baseline(prop)
     known = load_known()
     my_findings = [k for k in known.get("findings", []) if k.get("property") == prop]
 
@@ -88,11 +106,25 @@ def finish(prop, tier, seed, contracts, results, extra, t0):
                     rep["replay_error"] = f"{type(e).__name__}: {e}"
             elif o.get("replay") is not None:
                 found = (o["replay"].get("inputs"), o["replay"])
-            if o.get("validated") is False and found is None:
+            if found is None and str(o.get("function", "")).startswith("yarl._quoting_c_pyx"):
+                try:
+                    if "c_search" not in _CACHE:
+                        _CACHE["c_search"] = replay.search_c_quoter()
+                    cand, j2 = _CACHE["c_search"]
+                    if cand is not None:
+                        found = (cand, j2)
+                        rep["replay_kind"] = "compiled quoter rebuilt from the current .pyx, compared with the token-level specification"
+                except Exception as e:
+                    rep["replay_error"] = f"{type(e).__name__}: {e}"
+            if o.get("validated") is False and found is None and okey(o) not in baseline:
                 # counter-model of the instantiated VC that does not satisfy the un-instantiated
-                # facts, and nothing reproduces natively: not a verdict
+                # facts, nothing reproduces natively, and the obligation is not one that was
+                # discharged on the pinned tree: not a verdict
                 undecided.append(o)
                 continue
+            if o.get("validated") is False and found is None:
+                rep["note"] = ("the obligation is discharged on the pinned tree (baseline/%s.json) and is now refuted "
+                               "by the solver on the instantiated verification condition" % prop)
             if found is not None:
                 rep["failing_input"] = found[0]
                 rep["observed_vs_expected"] = found[1]
@@ -164,6 +196,10 @@ def finish(prop, tier, seed, contracts, results, extra, t0):
     os.makedirs(os.path.join(ROOT, "evidence"), exist_ok=True)
     json.dump(evidence, open(os.path.join(ROOT, "evidence", f"{prop}.json"), "w"), indent=1, ensure_ascii=True, default=repr)
 
+    if write_baseline:
+        os.makedirs(os.path.join(ROOT, "baseline"), exist_ok=True)
+        keys = sorted({okey(o) for o in obligations if o["status"] in ("unsat", "ok")})
+        json.dump({"property": prop, "discharged": keys}, open(os.path.join(ROOT, "baseline", f"{prop}.json"), "w"), indent=0)
     for line in kf_lines:
         print(line)
     print(f"{prop}: {discharged}/{n} obligations discharged over {len(functions)} functions "
